@@ -1002,10 +1002,22 @@ func (s *Server) handleDecline(req *dhcpv4.DHCPv4) {
 	// Mark IP as unavailable in pool
 	s.leasesMu.Lock()
 	lease, exists := s.leases[mac.String()]
+	if exists && (lease == nil || !lease.IP.Equal(declinedIP)) {
+		// Only the address the client actually holds can be declined
+		exists = false
+	}
 	if exists {
 		delete(s.leases, mac.String())
 	}
 	s.leasesMu.Unlock()
+
+	// Remove from circuit-ID secondary index
+	if exists && len(lease.CircuitID) > 0 {
+		cidKey := hex.EncodeToString(lease.CircuitID)
+		s.leasesByCircuitIDMu.Lock()
+		delete(s.leasesByCircuitID, cidKey)
+		s.leasesByCircuitIDMu.Unlock()
+	}
 
 	if exists && lease != nil {
 		if pool := s.poolMgr.GetPool(lease.PoolID); pool != nil {
